@@ -172,3 +172,90 @@ Print Assumptions C14_encode_decode.
 Print Assumptions C14_extend.
 Print Assumptions C14_extend_by_text.
 Print Assumptions C14_push_str.
+
+(* ---------- the byte moves of remove / insert / insert_str / pop / truncate as /repo's source has
+   them (LeafActual.v, regenerated on every run): which addresses and lengths go to ptr::copy and
+   set_len, for every text length, index, character width and inserted length ---------- *)
+From BV Require Import RustSem LeafActual LeafActualOk VecSourceOk StringSourceOk Memmove StringSource.
+From Coq Require Import String.
+Close Scope string_scope.
+
+Theorem C14_source_remove : forall len base i w, i + w <= len -> base + len < W ->
+  let en := ("ch"%string, vch w) :: sself len base in
+  let args := [VN i] in
+  call_fn src_fns en "string_remove_next" args = RustSem.Ret (VN (i + w)) /\
+  call_fn src_fns en "string_remove_copy_src" args = RustSem.Ret (VN (base + (i + w))) /\
+  call_fn src_fns en "string_remove_copy_dst" args = RustSem.Ret (VN (base + i)) /\
+  call_fn src_fns en "string_remove_copy_len" args = RustSem.Ret (VN (len - (i + w))) /\
+  call_fn src_fns en "string_remove_new_len" args = RustSem.Ret (VN (len - w)).
+Proof. exact src_string_remove_ok. Qed.
+
+Theorem C14_source_insert_bytes : forall len base i amt src, i <= len -> base + len + amt < W ->
+  let en := sself len base in
+  let args := [VN i; vbytes amt src] in
+  call_fn src_fns en "string_insert_reserve" args = RustSem.Ret (VN amt) /\
+  call_fn src_fns en "string_insert_shift_src" args = RustSem.Ret (VN (base + i)) /\
+  call_fn src_fns en "string_insert_shift_dst" args = RustSem.Ret (VN (base + (i + amt))) /\
+  call_fn src_fns en "string_insert_shift_len" args = RustSem.Ret (VN (len - i)) /\
+  call_fn src_fns en "string_insert_write_src" args = RustSem.Ret (vbytes amt src) /\
+  call_fn src_fns en "string_insert_write_dst" args = RustSem.Ret (VN (base + i)) /\
+  call_fn src_fns en "string_insert_write_len" args = RustSem.Ret (VN amt) /\
+  call_fn src_fns en "string_insert_new_len" args = RustSem.Ret (VN (len + amt)).
+Proof. exact src_string_insert_bytes_ok. Qed.
+
+Theorem C14_source_pop_truncate : forall len base w n, w <= len ->
+  call_fn src_fns (("ch"%string, vch w) :: sself len base) "string_pop_new_len" [] = RustSem.Ret (VN (len - w)) /\
+  call_fn src_fns (sself len base) "string_truncate_in_range" [VN n] = RustSem.Ret (VB (n <=? len)).
+Proof. exact src_string_pop_truncate_ok. Qed.
+
+(* String::drain resolves its range like Vec::drain: a bound of usize::MAX that would need +1 panics (F10);
+   and the statements around the located expressions (boundary assertions first, then the moves) *)
+Theorem C14_source_drain_bounds : forall len cap base s e,
+  let en := vself len cap base in
+  call_fn src_fns en "string_drain_start" [vrange s e] = opt_or_panic (VecModel.range_start s) /\
+  call_fn src_fns en "string_drain_end" [vrange s e] = opt_or_panic (VecModel.range_end e len).
+Proof. exact src_string_drain_bounds_ok. Qed.
+
+Theorem C14_source_frames : forallb snd src_frames_string = true /\ List.length src_frames_string = 8%nat.
+Proof. split; [exact src_frames_string_ok | reflexivity]. Qed.
+
+(* those moves, done to a buffer with any spare capacity behind the text, give the model's result:
+   remove takes out exactly the character at the index, insert opens a gap of exactly the inserted
+   length and fills it, truncate keeps a prefix *)
+Theorem C14_remove_assembled_from_source : forall s spare i rest removed,
+  s_remove s i = SRet (rest, removed) ->
+  remove_assembled s spare i (N.of_nat (List.length removed)) = rest /\
+  char_len (skipn (N.to_nat i) s) = Some (List.length removed) /\
+  i + N.of_nat (List.length removed) <= N.of_nat (List.length s).
+Proof. exact remove_is_assembled. Qed.
+
+Theorem C14_insert_assembled_from_source : forall s spare i t r,
+  s_insert_str s i t = SRet r -> (List.length t <= List.length spare)%nat -> insert_assembled s spare i t = r.
+Proof. exact insert_is_assembled. Qed.
+
+Theorem C14_truncate_assembled_from_source : forall s spare n r,
+  s_truncate s n = SRet r ->
+  r = if n <=? N.of_nat (List.length s) then mlen (s ++ spare) (N.to_nat n) else s.
+Proof. exact truncate_is_assembled. Qed.
+
+(* the memmove facts themselves, for any cell type *)
+Theorem C14_remove_by_memmove : forall (A : Type) (l spare : list A) i w, (i + w <= List.length l)%nat ->
+  mlen (mcopy (l ++ spare) (i + w) i (List.length l - (i + w))) (List.length l - w) = firstn i l ++ skipn (i + w) l.
+Proof. intros A. exact remove_by_memmove. Qed.
+
+Theorem C14_insert_by_memmove : forall (A : Type) (l spare t : list A) i,
+  (i <= List.length l)%nat -> (List.length t <= List.length spare)%nat ->
+  mlen (mwrite (mcopy (l ++ spare) i (i + List.length t) (List.length l - i)) i t) (List.length l + List.length t)
+  = firstn i l ++ t ++ skipn i l.
+Proof. intros A. exact insert_by_memmove. Qed.
+
+Print Assumptions C14_source_remove.
+Print Assumptions C14_source_insert_bytes.
+Print Assumptions C14_source_pop_truncate.
+Print Assumptions C14_source_drain_bounds.
+Print Assumptions C14_source_frames.
+Print Assumptions C14_remove_assembled_from_source.
+Print Assumptions C14_insert_assembled_from_source.
+Print Assumptions C14_truncate_assembled_from_source.
+Print Assumptions C14_remove_by_memmove.
+Print Assumptions C14_insert_by_memmove.
